@@ -431,12 +431,15 @@ def extra_code_cases(draw):
     recs = L._logical_file_records(draw, max_sets=0, allow_encrypted=False)
     size = EXTRA_CODES[code][1]
     value = bytes([5]) if code == 25 else bytes([0x3C, 0x00] * (size // 2))      # ORIGIN 5; small positive numbers elsewhere
-    where = draw(st.sampled_from(['template', 'object']))
+    where = draw(st.sampled_from(['template', 'object', 'object-code-only']))
     tmpl = [L._plain_attr(b'VAL', code if where == 'template' else 19), L._plain_attr(b'NOTE', 20)]
-    obj = {'name': [1, 0, b'OBJ'], 'attrs': [L._obj_attr([value], code=None if where == 'template' else code), L._obj_attr([b'x'])]}
+    if where == 'object-code-only':     # the code is stated, no value follows: nothing of that code has to be decoded
+        obj = {'name': [1, 0, b'OBJ'], 'attrs': [L._obj_attr(None, code=code), L._obj_attr([b'x'])]}
+    else:
+        obj = {'name': [1, 0, b'OBJ'], 'attrs': [L._obj_attr([value], code=None if where == 'template' else code), L._obj_attr([b'x'])]}
     recs.append({'kind': 'set', 'lr_type': 5, 'encrypted': False,
                  'set': {'role': 'SET', 'type': b'PARAMETER', 'name': None, 'template': tmpl, 'objects': [obj]}})
-    return dict(L._finish_case(draw, recs), extra_code=code)
+    return dict(L._finish_case(draw, recs), extra_code=code, where=where)
 
 
 def check_extra_code(case, cc):
@@ -453,6 +456,10 @@ def check_extra_code(case, cc):
     except Exception as err:  # noqa
         if not engine.sut_frames(err):
             raise
+        if case.get('where') == 'object-code-only':
+            cc.dev('table==encoded', 'code-without-value-not-readable', 'an object attribute that states code %d (%s) and carries no value: indexing raises %r' % (
+                code, EXTRA_CODES[code][0], err))
+            return
         cc.dev('table==encoded', 'representation-code-not-readable', 'a PARAMETER set with an attribute of code %d (%s): indexing raises %r' % (
             code, EXTRA_CODES[code][0], err))
         return
@@ -462,6 +469,7 @@ def check_extra_code(case, cc):
             code, len(lfs), len(mine)))
         return
     attr = mine[0].objects[0].attrs[0]
+    cc.cls('extra-code-stated-without-value', case.get('where') == 'object-code-only')
     if attr.rep_code != code or attr.count != 1:
         cc.dev('table==encoded', 'cell-code-or-count', 'code %d: cell presented with code %r count %r' % (code, attr.rep_code, attr.count))
 
